@@ -13,6 +13,7 @@ import (
 	"verifharness/ast"
 	"verifharness/gen"
 	"verifharness/hx"
+	"verifharness/ref"
 	"verifharness/render"
 )
 
@@ -76,6 +77,14 @@ func checkSyntaxBody(c *hx.Case, want *ast.Body, got *hclsyntax.Body, path strin
 	for i, a := range wa {
 		if names[i] != a.Name {
 			c.Failf("attr-names", "%s: attribute %d is %q, wrote %q", path, i, names[i], a.Name)
+		}
+		if tm, ok := a.Expr.(ast.Template); ok {
+			if r := ref.Eval(tm, ref.NewEnv(nil)); r.Unspec == "" && !r.Err {
+				v, diags := got.Attributes[a.Name].Expr.Value(nil)
+				if diags.HasErrors() || !v.RawEquals(r.V) {
+					c.Failf("attr-value", "%s.%s: value %#v (%s) want %#v", path, a.Name, v, diagStr(diags), r.V)
+				}
+			}
 		}
 		if num, ok := a.Expr.(ast.Num); ok {
 			v, diags := got.Attributes[a.Name].Expr.Value(nil)
@@ -203,7 +212,36 @@ func TestC02_Structure(t *testing.T) {
 
 func caseC02Structure(c *hx.Case) {
 	t := c.T
-	tree := gen.DrawBody(t, gen.BodyOpts{Depth: 3})
+	tree := gen.DrawBody(t, gen.BodyOpts{Depth: 3, Expr: func(oneLine bool) ast.Node {
+		// numbers, and multi-line values: the heredoc forms are where structure and line
+		// structure interact (closing marker, flush indentation, CRLF)
+		k := rapid.IntRange(0, 5).Draw(t, "valuekind")
+		if k <= 2 || (oneLine && k >= 4) {
+			return ast.Num{Text: rapid.SampledFrom([]string{"0", "1", "42", "1.5", "1e3"}).Draw(t, "num")}
+		}
+		var parts []ast.TPart
+		txt := ""
+		for i, n := 0, rapid.IntRange(1, 3).Draw(t, "nlines"); i < n; i++ {
+			txt += rapid.SampledFrom([]string{"a", "  b", "    c d", "", "x y"}).Draw(t, "line")
+			if k >= 4 || i < n-1 {
+				txt += "\n"
+			}
+		}
+		if txt != "" {
+			parts = append(parts, ast.TLit{Text: txt})
+		}
+		tm := ast.Template{Parts: parts}
+		switch k {
+		case 4:
+			tm.Form = ast.Heredoc
+		case 5:
+			tm.Form = ast.FlushHeredoc
+		}
+		if tm.Form != ast.Quoted && !render.CanHeredoc(tm) {
+			tm.Form = ast.Quoted
+		}
+		return tm
+	}})
 	dump := ast.DumpBody(tree)
 	c.Set("tree", dump)
 	bo := drawBodyOpts(t)
